@@ -71,6 +71,16 @@ theorem wasm_positive_threshold (cfg : Config) (n : Nat) (h : 0 < n) :
 panic = trap) is called, and `build` is `self.builder.build()` — both read off the source -/
 theorem wasm_from_and_build : wasmFromRejectsEmptyBeforeLibrary = true ∧ wasmBuildDelegates = true := ⟨rfl, rfl⟩
 
+/-- **C17, assembled**: for every non-empty array of strings and every sequence of setter calls of the wasm class (numbers as a JavaScript
+caller can pass them after the `u32` coercion) that does not throw, the library accepts the same calls with the same resulting settings;
+`build` hands the work to the library's `build()` without touching the result (generated fact), so the returned pattern is the library's
+for those settings — and a sequence that throws does so at the same call with the library's message (`wasm_history_eq` is an equation of
+the two runs, errors included) -/
+theorem wasm_class_faithful (ops : List (SetterId × Arg)) (cfg : Config)
+    (hops : ∀ op ∈ ops, ArgOk op.2 ∧ op.1 ≠ .syntaxHighlighting) (hset : runSetters wasmSetters ops {} = .ok cfg) :
+    runSetters rsSetters ops {} = .ok cfg ∧ wasmBuildDelegates = true :=
+  ⟨by rw [← wasm_history_eq ops {} hops]; exact hset, rfl⟩
+
 /-! non-vacuity -/
 example : applySetter wasmSetters .escaping (.bool true) {} = some (.ok { esc := true, sur := true }) := rfl
 example : ArgOk (.int 3) ∧ SetterId.noAnchors ≠ .syntaxHighlighting := ⟨by simp [ArgOk], by decide⟩
